@@ -270,6 +270,22 @@ def main():
         ctx.coverage["reload_walk_limit_probes"] = [[r["limit"], r["max_executing"]] for r in steps]
         for r in [r for r in steps if r.get("limit_what")][:2]:
             violation(ctx, {"what": "real application, definitions file rewritten (watch mode): " + r["limit_what"], "reload_walk": r["walk"][:r["step"] + 2], "step": r})
+    if prop == "C05":
+        # the admission rule follows the definition in force, through the reload path of the real application (queue_limit and concurrency
+        # differ between the versions of the walk; five requests at once after each change)
+        rb = build_harness(ctx, ["realrun"])
+        outp = os.path.join(ctx.run, "reload.jsonl")
+        recs = []
+        if rb:
+            rc, o = sh([rb["realrun"], "-mode", "reload", "-seed", str(ctx.seed), "-n", "2" if ctx.tier == "quick" else "10", "-out", outp], cwd=ctx.run, timeout=900)
+            if rc == 0:
+                recs = [json.loads(l) for l in open(outp)]
+        steps = [r for r in recs if r.get("kind") == "reload_step"]
+        if not steps:
+            violation(ctx, {"what": "realrun -mode reload did not complete", "broken": "the reload walk over the real application (C05: admission under the definition in force) cannot run"}, found_input=False)
+        ctx.coverage["reload_walk_admission_probes"] = [[r["accepted_expected"], r["accepted_of_5"]] for r in steps]
+        for r in [r for r in steps if r.get("admit_what")][:2]:
+            violation(ctx, {"what": "real application, definitions file rewritten (watch mode): " + r["admit_what"], "reload_walk": r["walk"][:r["step"] + 2], "step": r})
     if prop == "C08":
         # the real task runner (real processes) on generated graphs with tasks that succeed, exit non-zero, are killed by a signal or
         # cannot be parsed, allow_failure and both fail-fast settings; marker files say what actually ran
